@@ -12,6 +12,7 @@ import itertools
 import weakref
 
 from mc.core import CaseResult, Failure, HarnessError
+from mc import idadv
 
 PROPERTY = "C13"
 LEVEL = "model_checking"
@@ -25,8 +26,8 @@ ASSUMPTIONS = ["CPython reference counting reclaims an unreferenced instance imm
                "final census", "clear() is the documented reset: instances created before it are not expected afterwards",
                "instances a query has yielded may be kept alive by krrood itself (C20's subject); the census measures "
                "actual liveness, so C13 stays silent about that"]
-BOUNDS = {"quick": {"depth_from_empty": 5, "depth_from_prepopulated": 4, "alphabet": 10},
-          "thorough": {"depth_from_empty": 6, "depth_from_prepopulated": 5, "alphabet": 12}}
+BOUNDS = {"quick": {"depth_from_empty": 5, "depth_from_prepopulated": 4, "alphabet": 10, "depth_under_identity_adversary": 4},
+          "thorough": {"depth_from_empty": 6, "depth_from_prepopulated": 5, "alphabet": 12, "depth_under_identity_adversary": 5}}
 CHUNK = 400
 RECYCLE_CHUNKS = 6
 BUDGET_S = {"quick": 900, "thorough": 8000}
@@ -47,7 +48,24 @@ def cases(tier, seed):
         for k in range(0, depth + 1):
             for seq in itertools.product(ops, repeat=k):
                 out.append((start, seq))
+    # the same histories when the allocator hands the identity of every dead instance to the next instance born
+    # (mc/idadv.py), wherever an instance is born after another one died and before the next sweep / query / clear
+    for start, seq in list(out):
+        if len(seq) <= b["depth_under_identity_adversary"] and reuse_possible(start + seq):
+            out.append((start, seq, "recycled"))
     return out
+
+
+def reuse_possible(hist):
+    dead_unswept = False
+    for op in hist:
+        if op[0] == "drop":
+            dead_unswept = True
+        elif op[0] in ("sweep", "query", "clear"):
+            dead_unswept = False
+        elif op[0] == "new" and dead_unswept:
+            return True
+    return False
 
 
 _H = None
@@ -69,7 +87,44 @@ def query(T):
     return list(an(entity(let(T, None))).evaluate())
 
 
+_ADV = [None]
+_HOOKED = [False]
+
+
+def hook_births():
+    """stamp the birth of every Symbol instance for the identity adversary (krrood registers an instance through the
+    module-level function update_cache, which the harness wraps; no source change)"""
+    if _HOOKED[0]:
+        return
+    _HOOKED[0] = True
+    from krrood.entity_query_language import predicate as P
+    orig = P.update_cache
+
+    def update_cache(instance):
+        if _ADV[0] is not None:
+            _ADV[0].born(instance)
+        return orig(instance)
+    P.update_cache = update_cache
+
+
 def run_case(case):
+    if len(case) == 3:
+        hook_births()
+        _ADV[0] = idadv.IdAdversary(recycle=True)
+        try:
+            with idadv.installed(_ADV[0]):
+                res = run_case_inner(case[:2], " [identities of dead instances are reused at once]")
+            if _ADV[0].recycled:
+                res.features = set(res.features or ()) | {"identity-recycled"}
+            if res.nontrivial_key is not None:
+                res.nontrivial_key = case
+            return res
+        finally:
+            _ADV[0] = None
+    return run_case_inner(case, "")
+
+
+def run_case_inner(case, note):
     from krrood.entity_query_language.symbol_graph import SymbolGraph
     start, seq = case
     res = CaseResult()
@@ -89,7 +144,7 @@ def run_case(case):
         try:
             got = query(T)
         except Exception as e:
-            res.failures.append(Failure("crash", f"{where}: query({T.__name__}) raised {type(e).__name__}: {e}"))
+            res.failures.append(Failure("crash", f"{where}{note}: query({T.__name__}) raised {type(e).__name__}: {e}"))
             return False
         g = sorted(id(x) for x in got)
         exp = expected(T)
@@ -99,7 +154,7 @@ def run_case(case):
             show = lambda ids: [names.get(i, "<dead or unknown>") for i in ids]
             kind = "duplicate-instance" if len(set(g)) < len(g) and set(g) == set(exp) else \
                 "missing-instance" if set(exp) - set(g) else "unexpected-instance"
-            res.failures.append(Failure(kind, f"{where}: let({T.__name__}, None) ranges over {show(g)}, "
+            res.failures.append(Failure(kind, f"{where}{note}: let({T.__name__}, None) ranges over {show(g)}, "
                                               f"live instances are {show(exp)}"))
             return False
         return True
@@ -135,7 +190,7 @@ def run_case(case):
                 SymbolGraph()
                 epoch += 1
         except Exception as e:
-            res.failures.append(Failure("crash", f"{where}: {type(e).__name__}: {e}"))
+            res.failures.append(Failure("crash", f"{where}{note}: {type(e).__name__}: {e}"))
             break
         states.append((tuple(sorted(n for n, r, e in census if r() is not None and e == epoch)), k))
     if not res.failures:
@@ -159,7 +214,7 @@ def run_case(case):
 
 def finish(run):
     if run.exhaustive and not run.failures:
-        for k in ("index-reuse-possible", "clear", "sweep", "query", "drop"):
+        for k in ("index-reuse-possible", "clear", "sweep", "query", "drop", "identity-recycled"):
             if not run.features.get(k):
                 raise HarnessError(f"vacuous: {k} never exercised")
 
